@@ -134,6 +134,10 @@ def cases(tier, r):
                            "names": names_for(r, R, C, flat if ok_shape else [], False, nk), "tag": f"geom-{nk}"})
                 if nk == "valid":
                     ps.append(dict(ps[-1], reuse_names=True, tag="geom-valid-dict-used-before"))
+    # the same kinds of specifications in a unit of 2^-40 microlitres (volumes around 1e-12) and of 1024 microlitres
+    base_n = len(ps)
+    for k, spec in enumerate([q_ for q_ in ps if q_.get("tag", "").startswith("geom-") and q_["init"]["form"] in ("flat", "2d", "scalar") and not any(q_["init"].get("nan", []))][:: (7 if q else 2)]):
+        ps.append(dict(spec, scale=[1, 2**40] if k % 2 == 0 else [1024, 1], tag=spec["tag"] + "-scaled"))
     tgeoms = [(1, 1), (4, 1), (1, 3), (8, 4), (26, 2)] + [(r.randint(1, 26), r.randint(1, 24)) for _ in range(3 if q else 30)]
     for (V, C) in tgeoms:
         maxv = r.choice([5, 50])
@@ -145,6 +149,8 @@ def cases(tier, r):
             for nk in kinds:
                 ps.append({"x": "ctor", "kind": "trough", "name": r.choice(["L", "media"]), "rows": I(1), "cols": I(C), "vrows": VR(I(V)),
                            "minv": N(0), "maxv": N(maxv), "init": init, "names": names_for(r, 1, C, flat if ok_shape else [], True, nk), "tag": f"tgeom-{nk}"})
+                if nk in ("none", "valid") and init["form"] in ("percol", "scalar") and not any(init.get("nan", [])) and len(ps) % 5 == 0:
+                    ps.append(dict(ps[-1], scale=[1, 2**40], tag=f"tgeom-{nk}-scaled"))
     return ps
 
 
